@@ -109,11 +109,13 @@ class ArrIter:
 class Closure:
     def __init__(s,defname,caps): s.defname=defname; s.caps=caps
 class SetV:
-    def __init__(s,arr,name=None):
-        s.arr=arr; s.bits=[z3.Bool('%s_b%d'%(name,i)) for i in range(64)] if name else None
-    def member(s,x):
-        lo=max(x.lo,0); hi=min(x.hi,63)
-        return z3.Or(*[z3.And(x.t==i,s.bits[i]) for i in range(lo,hi+1)]) if hi>=lo else z3.BoolVal(False)
+    def __init__(s,arr): s.arr=arr
+class StrV:
+    def __init__(s,buf,start,ln): s.buf=buf; s.start=start; s.len=ln
+class CharsV:
+    def __init__(s,st,pos): s.s=st; s.pos=pos
+class TakeWhileV:
+    def __init__(s,ch,clo): s.ch=ch; s.clo=clo
 UNIT=Agg([],'unit')
 
 def mk_int(v,ty): return IV(z3.IntVal(v),ty,v,v)
@@ -161,6 +163,8 @@ def merge(c,a,b):
             else: v[k]=a.v.get(k,b.v.get(k))
         return En(d,v,a.ty)
     if isinstance(a,SetV) and isinstance(b,SetV) and a.arr.eq(b.arr): return a
+    if isinstance(a,StrV) and isinstance(b,StrV) and a.buf is b.buf:
+        return StrV(a.buf,ite_iv(c,a.start,b.start),ite_iv(c,a.len,b.len))
     if isinstance(a,Opaque) or isinstance(b,Opaque): return Opaque('merged')
     if a is None: return b
     if b is None: return a
@@ -173,6 +177,7 @@ class PanicAll(Exception): pass
 
 class Exec:
     def __init__(self,fns,consts,ctx,impl_index):
+        self.cases={}
         self.fns=fns; self.consts=consts; self.ctx=ctx; self.impl=impl_index; self.constcache={}; self.unwind=int(__import__('os').environ.get('UNWIND','16'))
         self.depth=0
     # ---- name resolution
@@ -212,6 +217,8 @@ class Exec:
         m=re.match(r'^core::num::<impl ([iu](?:8|16|32|64|128|size))>::(MIN|MAX)$',s)
         if m: lo,hi=ty_range(m.group(1)); return mk_int(lo if m.group(2)=='MIN' else hi,m.group(1))
         if s=='()': return UNIT
+        if s.startswith('ZeroSized: {closure@'):
+            return Closure(s[len('ZeroSized: '):],[])
         if s.startswith('"') or s.startswith('b"'): return Opaque('str')
         if s.startswith("'"): return mk_int(ord(eval(s)),'char')
         # named constant
@@ -334,8 +341,14 @@ class Exec:
             if base=='Add': t=a.t+b.t; lo=a.lo+b.lo; hi=a.hi+b.hi
             elif base=='Sub': t=a.t-b.t; lo=a.lo-b.hi; hi=a.hi-b.lo
             else:
-                if a.const() is None and b.const() is None: raise Exception('nonlinear mul')
-                t=a.t*b.t; c=[a.lo*b.lo,a.lo*b.hi,a.hi*b.lo,a.hi*b.hi]; lo=min(c);hi=max(c)
+                if a.const() is None and b.const() is None:
+                    if b.t.get_id() in self.cases:
+                        cs=self.cases[b.t.get_id()]; t=a.t*cs[-1][1]
+                        for cnd,v in reversed(cs[:-1]): t=z3.If(cnd,a.t*v,t)
+                        bb_=b; b=IV(None,b.ty,b.lo,b.hi)
+                    else: raise Exception('nonlinear mul')
+                else: t=a.t*b.t
+                c=[a.lo*b.lo,a.lo*b.hi,a.hi*b.lo,a.hi*b.hi]; lo=min(c);hi=max(c)
             if a.const() is not None and b.const() is not None:
                 t=z3.IntVal(lo)
             tlo,thi=ty_range(ty)
@@ -345,6 +358,12 @@ class Exec:
                 else: ovf=BV(z3.Or(t<tlo,t>thi))
                 return Agg([wrap(ctx,t,lo,hi,ty),ovf])
             return wrap(ctx,t,lo,hi,ty)
+        if op in('Div','Rem') and b.const() is None and b.t.get_id() in self.cases and a.const() is not None:
+            cs=self.cases[b.t.get_id()]; x=a.const()
+            vals=[(cnd,(x//v if op=='Div' else x%v)) for cnd,v in cs]
+            t=z3.IntVal(vals[-1][1])
+            for cnd,v in reversed(vals[:-1]): t=z3.If(cnd,v,t)
+            r=IV(t,ty,min(v for _,v in vals),max(v for _,v in vals)); self.cases[r.t.get_id()]=vals; return r
         if op in('Div','Rem'):
             c=b.const()
             if c is None or c<=0: raise Exception('div by non-const/nonpositive')
@@ -405,9 +424,11 @@ class Exec:
         if m:
             caps=[self.operand(frame,x.split(':',1)[1]) for x in split_top(m.group(1))] if m.group(1).strip() else []
             return Closure(None,caps)
-        m=re.match(r'^([\w:]+) \{ (.*) \}$',s)
+        m=re.match(r'^([\w:<>]+) \{ (.*) \}$',s)
         if m:
             return Agg([self.operand(frame,x.split(':',1)[1]) for x in split_top(m.group(2))],'struct:'+m.group(1))
+        m=re.match(r'^(\w+)\((.*)\)$',s)
+        if m and m.group(1)[0].isupper(): return Opaque('tuple-struct')
         m=re.match(r'^[\w:<>, ]+::(\w+)\((.*)\)$',s)
         if m and m.group(1) in self.VARIANTS:
             return En(mk_int(self.VARIANTS[m.group(1)],'isize'),{self.VARIANTS[m.group(1)]:[self.operand(frame,x) for x in split_top(m.group(2))]})
@@ -478,16 +499,16 @@ class Exec:
         if re.match(r'^std::collections::HashSet::<u8>::contains::<u8>$',c):
             st=args[0]; st=self.read(st.frame,(st.local,st.proj)) if isinstance(st,Ref) else st
             x=args[1]; x=self.read(x.frame,(x.local,x.proj))
-            return BV(st.member(x)),z3.BoolVal(True)
+            return BV(z3.Select(st.arr,x.t)),z3.BoolVal(True)
         if re.match(r'^std::collections::HashSet::<u8>::len$',c):
             st=args[0]; st=self.read(st.frame,(st.local,st.proj)) if isinstance(st,Ref) else st
-            return IV(z3.Sum([z3.If(st.bits[i],1,0) for i in range(0,64)]),'usize',0,64),z3.BoolVal(True)
+            return IV(z3.Sum([z3.If(z3.Select(st.arr,i),1,0) for i in range(0,64)]),'usize',0,64),z3.BoolVal(True)
         if re.match(r'^<std::collections::HashSet<u8> as Clone>::clone$',c):
             st=args[0]; return self.read(st.frame,(st.local,st.proj)),z3.BoolVal(True)
         if c.split('::')[-1]=='set_within':
             st=args[0]; st=self.read(st.frame,(st.local,st.proj)); lo=args[1].const(); hi=args[2].const()
-            outside=[z3.Not(st.bits[i]) for i in range(64) if i<lo or i>hi]
-            return BV(z3.And(z3.And(*outside),z3.Or(*[st.bits[i] for i in range(lo,hi+1)]))),z3.BoolVal(True)
+            outside=[z3.Not(z3.Select(st.arr,i)) for i in range(256) if i<lo or i>hi]
+            return BV(z3.And(z3.And(*outside),z3.Or(*[z3.Select(st.arr,i) for i in range(lo,hi+1)]))),z3.BoolVal(True)
         m=re.match(r'^core::num::<impl (\w+)>::(checked_add|checked_sub)$',c)
         if m:
             ty=m.group(1); a,b=args; lo,hi=ty_range(ty)
@@ -528,46 +549,9 @@ class Exec:
         if re.match(r'^<i128 as Ord>::cmp$',c) or re.match(r'^<\w+ as Ord>::cmp$',c) and c[1] in 'iu':
             a=self.read(args[0].frame,(args[0].local,args[0].proj)); b=self.read(args[1].frame,(args[1].local,args[1].proj))
             return IV(z3.If(a.t<b.t,-1,z3.If(a.t==b.t,0,1)),'i8',-1,1),z3.BoolVal(True)
+        r_=self.str_models(c,args,guard,site)
+        if r_ is not None: return r_
         name=self.resolve(c)
-        if name and name.split('::')[-1]=='days_to_date' and __import__('os').environ.get('ABSTRACT_D2D') and not getattr(self,'in_d2d_contract',False):
-            d=args[0]; key=d.t.get_id()
-            if not hasattr(self,'d2dmemo'): self.d2dmemo={}
-            if key not in self.d2dmemo:
-                y=IV(ctx.fresh('y'),'i32',-5879611,5879611); mth=IV(ctx.fresh('m'),'u32',1,12); dd=IV(ctx.fresh('dd'),'u32',1,31)
-                ctx.side+=[y.t>=y.lo,y.t<=y.hi,mth.t>=1,mth.t<=12,dd.t>=1,dd.t<=31]
-                cf=self.fns[[n for n in self.fns if n.split('::')[-1]=='contract_days_to_date'][0]]
-                self.in_d2d_contract=True; saved=ctx.cur_guard; np=len(ctx.panics)
-                holds,rg=self.call_body(cf,[d,y,mth,dd],z3.BoolVal(True))
-                self.in_d2d_contract=False; ctx.cur_guard=saved
-                del ctx.panics[np:]      # overflow checks inside the spec are discharged separately (oracle sanity)
-                ctx.side.append(z3.And(rg,holds.t))
-                self.d2dmemo[key]=Agg([y,mth,dd])
-            return self.d2dmemo[key],z3.BoolVal(True)
-        if name and 'datetime::<impl' in name and __import__('os').environ.get('ABSTRACT_DT') and not getattr(self,'in_contract',False):
-            meth=name.split('::')[-1]
-            cname='contract_dt_'+meth
-            cands=[n for n in self.fns if n.split('::')[-1]==cname]
-            if cands:
-                selfv=self.deref_dt(args[0]); d,n_,offe=selfv.f[0],selfv.f[1],selfv.f[2]
-                off=offe.v[0][0]
-                extra=list(args[1:])
-                cf=self.fns[cands[0]]
-                rty=self.fns[name].ret
-                if 'DateTime' in rty:
-                    rd=IV(ctx.fresh('rd'),'i32',-2**31,2**31-1); rn=IV(ctx.fresh('rn'),'u64',0,86400*10**9-1)
-                    ctx.side+=[rd.t>=rd.lo,rd.t<=rd.hi,rn.t>=0,rn.t<=rn.hi]
-                    res=[rd,rn]; out=Agg([rd,rn,offe],selfv.kind)
-                else:
-                    hi={'month':12,'day':31,'weekday':6,'hour':23,'minute':59}[meth]
-                    r=IV(ctx.fresh('r'),'u8' if meth=='weekday' else 'u32',0,hi); ctx.side+=[r.t>=0,r.t<=hi]
-                    res=[r]; out=r
-                self.in_contract=True; saved=ctx.cur_guard; np=len(ctx.panics)
-                self.in_contract_allow_d2d=True
-                holds,rg=self.call_body(cf,[d,n_,off]+extra+res,z3.BoolVal(True))
-                self.in_contract=False; ctx.cur_guard=saved
-                del ctx.panics[np:]
-                ctx.side.append(z3.Implies(guard,z3.And(rg,holds.t)))
-                return out,z3.BoolVal(True)
         if name is None: raise Exception('unmodelled callee: '+c)
         return self.call_body(self.fns[name],args,guard)
     def rpo(self,f):
@@ -755,9 +739,135 @@ class Exec:
         if not outs: return None,z3.BoolVal(False)
         g,fr=self.merge_states(outs)
         return self.view(fr,fr.get('_0',UNIT)),g
-    def deref_dt(self,v):
+
+    # ------------------------------------------------------------ bounded ASCII string layer (spike)
+    def ival(self,v):
+        return v
+    def add_iv(self,a,b,ty='usize'):
+        if a.const() is not None and b.const() is not None: return mk_int(a.const()+b.const(),ty)
+        return IV(a.t+b.t,ty,a.lo+b.lo,a.hi+b.hi)
+    def sub_iv(self,a,b,ty='usize'):
+        if a.const() is not None and b.const() is not None: return mk_int(a.const()-b.const(),ty)
+        return IV(a.t-b.t,ty,a.lo-b.hi,a.hi-b.lo)
+    def byte_at(self,st,idx):
+        """byte of string st at relative index idx (IV); caller guarantees idx < len"""
+        pos=self.add_iv(st.start,idx)
+        if pos.const() is not None:
+            k=pos.const()
+            return st.buf[k] if 0<=k<len(st.buf) else mk_int(0,'u8')
+        lo=max(pos.lo,0); hi=min(pos.hi,len(st.buf)-1)
+        t=st.buf[hi].t if hi>=lo else z3.IntVal(0)
+        for k in range(hi-1,lo-1,-1): t=z3.If(pos.t==k,st.buf[k].t,t)
+        return IV(t,'u8',0,127)
+    def deref_val(self,v):
         while isinstance(v,Ref): v=self.read(v.frame,(v.local,v.proj))
         return v
+    def closure_fn(self,clo):
+        key=clo.defname
+        for n,f in self.fns.items():
+            if '{closure#' in n and any(key in f.locals.get(p,'') for p in f.params[:1]): return f
+        raise Exception('closure fn not found '+str(key))
+    def call_pred(self,clo,ch,guard,by_ref):
+        f=self.closure_fn(clo)
+        tmp={'c':ch,'clo':clo}
+        arg2=Ref(tmp,'c',[]) if by_ref else ch
+        v,rg=self.call_body(f,[Ref(tmp,'clo',[]),arg2],guard)
+        return v
+    def parse_int(self,st,ty,guard):
+        """model of <int>::from_str on ASCII bytes: optional '+' (and '-' for signed), >=1 digit, overflow -> Err"""
+        signed=INT_TYPES[ty][1]==1; tlo,thi=ty_range(ty)
+        lo=max(st.len.lo,0); hi=min(st.len.hi,len(st.buf))
+        res_ok=None; res_val=None
+        for k in range(hi,lo-1,-1):
+            if k==0: okk=z3.BoolVal(False); valk=z3.IntVal(0)
+            else:
+                bs=[self.byte_at(st,mk_int(i,'usize')) for i in range(k)]
+                isd=[z3.And(b.t>=48,b.t<=57) for b in bs]
+                def num(js):
+                    t=z3.IntVal(0)
+                    for j in js: t=t*10+(bs[j].t-48)
+                    return t
+                plain_ok=z3.And(*isd); plain_val=num(range(k))
+                if k>1:
+                    plus=bs[0].t==43; minus=bs[0].t==45 if signed else z3.BoolVal(False)
+                    rest_ok=z3.And(*isd[1:]); rest_val=num(range(1,k))
+                    okk=z3.Or(plain_ok,z3.And(z3.Or(plus,minus),rest_ok))
+                    valk=z3.If(plain_ok,plain_val,z3.If(minus,-rest_val,rest_val))
+                else: okk=plain_ok; valk=plain_val
+                okk=z3.And(okk,valk>=tlo,valk<=thi)
+            if res_ok is None: res_ok,res_val=okk,valk
+            else:
+                c=st.len.t==k
+                res_ok=z3.If(c,okk,res_ok); res_val=z3.If(c,valk,res_val)
+        disc=IV(z3.If(res_ok,0,1),'isize',0,1)
+        return En(disc,{0:[IV(res_val,ty,tlo,thi)],1:[Opaque('ParseIntError')]})
+    def str_models(self,c,args,guard,site):
+        ctx=self.ctx; T=z3.BoolVal(True)
+        if re.match(r'^core::str::<impl str>::len$',c) or c=='String::len':
+            return self.deref_val(args[0]).len,T
+        if c=='<String as Deref>::deref' or c=='String::as_str': return self.deref_val(args[0]),T
+        m=re.match(r'^<(?:str|String) as Index<std::ops::(Range|RangeFrom)<usize>>>::index$',c)
+        if m:
+            st=self.deref_val(args[0]); r=args[1]
+            a=r.f[0]; b=r.f[1] if m.group(1)=='Range' else st.len
+            okc=z3.And(a.t<=b.t,b.t<=st.len.t)
+            bad=z3.And(guard,z3.Not(okc))
+            ctx.panics.append((bad,site+':str index out of range'))
+            return StrV(st.buf,self.add_iv(st.start,a),IV(b.t-a.t,'usize',max(0,b.lo-a.hi),max(0,b.hi-a.lo))),okc
+        m=re.match(r'^core::str::<impl str>::parse::<(\w+)>$',c)
+        if m: return self.parse_int(self.deref_val(args[0]),m.group(1),guard),T
+        if re.match(r'^core::str::<impl str>::chars$',c): return CharsV(self.deref_val(args[0]),mk_int(0,'usize')),T
+        if c=="<Chars<'_> as Iterator>::nth":
+            r=args[0]; ch=self.deref_val(r); n=args[1]
+            idx=self.add_iv(ch.pos,n)
+            has=self.binop('Lt',idx,ch.s.len)
+            self.write(r.frame,(r.local,r.proj),CharsV(ch.s,self.add_iv(idx,mk_int(1,'usize'))))
+            b=self.byte_at(ch.s,idx)
+            disc=mk_int(int(has.c),'isize') if has.c is not None else IV(z3.If(has.t,1,0),'isize',0,1)
+            return En(disc,{0:[],1:[IV(b.t,'char',0,127)]}),T
+        if c.startswith("<Chars<'_> as Iterator>::take_while::<"):
+            return TakeWhileV(args[0],args[1]),T
+        if c.startswith("<TakeWhile<Chars<'_>,") and c.endswith("as Iterator>::collect::<String>"):
+            tw=args[0]; ch=tw.ch; st=ch.s
+            rem=self.sub_iv(st.len,ch.pos); maxlen=max(0,min(rem.hi,len(st.buf)))
+            plen=z3.IntVal(maxlen)
+            for i in range(maxlen-1,-1,-1):
+                b=self.byte_at(st,self.add_iv(ch.pos,mk_int(i,'usize')))
+                cnd=self.call_pred(tw.clo,IV(b.t,'char',0,127),guard,True)
+                stop=z3.Or(i>=rem.t, z3.Not(cnd.t))
+                plen=z3.If(stop,i,plen)
+            plen=z3.If(rem.t<=0,0,plen) if maxlen>0 else z3.IntVal(0)
+            return StrV(st.buf,self.add_iv(st.start,ch.pos),IV(plen,'usize',0,maxlen)),T
+        if c.startswith("<Chars<'_> as Iterator>::position::<"):
+            r=args[0]; ch=self.deref_val(r); st=ch.s; clo=args[1]
+            rem=self.sub_iv(st.len,ch.pos); maxlen=max(0,min(rem.hi,len(st.buf)))
+            found=z3.BoolVal(False); pos=z3.IntVal(0)
+            for i in range(maxlen-1,-1,-1):
+                b=self.byte_at(st,self.add_iv(ch.pos,mk_int(i,'usize')))
+                cnd=self.call_pred(clo,IV(b.t,'char',0,127),guard,False)
+                hit=z3.And(i<rem.t,cnd.t)
+                pos=z3.If(hit,i,pos); found=z3.Or(hit,found)
+            return En(IV(z3.If(found,1,0),'isize',0,1),{0:[],1:[IV(pos,'usize',0,max(0,maxlen-1))]}),T
+        m=re.match(r'^core::str::<impl str>::starts_with::<char>$',c)
+        if m:
+            st=self.deref_val(args[0]); chv=args[1]
+            b=self.byte_at(st,mk_int(0,'usize'))
+            return BV(z3.And(st.len.t>0,b.t==chv.t)),T
+        m=re.match(r'^core::num::<impl (u64|u32)>::pow$',c)
+        if m:
+            base=args[0].const(); e=args[1]; ty=m.group(1); tlo,thi=ty_range(ty)
+            cases=[(k,base**k) for k in range(max(e.lo,0),e.hi+1)]
+            ovf=[k for k,v in cases if v>thi]
+            if ovf:
+                ctx.panics.append((z3.And(guard,e.t>=min(ovf)),site+':pow overflow'))
+            okc=e.t<min(ovf) if ovf else T
+            good=[(k,v) for k,v in cases if v<=thi]
+            t=z3.IntVal(good[-1][1])
+            for k,v in reversed(good[:-1]): t=z3.If(e.t==k,v,t)
+            r=IV(t,ty,good[0][1],good[-1][1]); 
+            self.cases[r.t.get_id()]=[(e.t==k,v) for k,v in good]
+            return r,okc
+        return None
     def split_call(self,term):
         # term: [dest = ]callee(args) -> ...
         t=term
@@ -804,7 +914,12 @@ def run(prop,mirfile,srcroot,argspecs,timeout=600):
     for p in f.params:
         ty=f.locals[p]
         if 'HashSet' in ty:
-            args.append(SetV(z3.Array('set'+p,z3.IntSort(),z3.BoolSort()),'set'+p)); continue
+            args.append(SetV(z3.Array('set'+p,z3.IntSort(),z3.BoolSort()))); continue
+        if ty=='&str':
+            L=int(__import__('os').environ.get('STRLEN','20'))
+            buf=[IV(z3.Int('s%d'%i),'u8',0,127) for i in range(L)]
+            dom+=[z3.And(b.t>=0,b.t<=127) for b in buf]
+            args.append(StrV(buf,mk_int(0,'usize'),mk_int(L,'usize'))); run.strbuf=buf; continue
         if ty=='bool':
             args.append(BV(z3.Bool('arg'+p))); continue
         lo,hi=ty_range(ty)
@@ -829,8 +944,9 @@ def run(prop,mirfile,srcroot,argspecs,timeout=600):
     if r==z3.sat:
         m=s.model()
         print('  counterexample:',{str(a.t):m.eval(a.t) for a in args if isinstance(a,IV)})
+        if hasattr(run,'strbuf'): print('   string:',repr(''.join(chr(m.eval(b.t,model_completion=True).as_long()) for b in run.strbuf)))
         for a in args:
-            if isinstance(a,SetV): print('   set',a.arr,[i for i in range(64) if z3.is_true(m.eval(a.bits[i],model_completion=True))])
+            if isinstance(a,SetV): print('   set',a.arr,[i for i in range(64) if z3.is_true(m.eval(z3.Select(a.arr,i),model_completion=True))])
         for g,site in ctx.panics:
             if z3.is_true(m.eval(g,model_completion=True)): print('  panic site:',site)
     return r
